@@ -64,7 +64,7 @@ Proof.
   intros K I Hin.
   destruct (k_wf e L c K t) as (Hok & Hops & Hbuf). unfold kpc_ok in Hok.
   pose proof (k_call e L c K t) as Hc. unfold call_ok, is_idle in Hc.
-  destruct (t_pc (c_pool c t)) as [|q|q b|q b|q b got|q b got|q b got|q b got| |hm|hm] eqn:Hpc; try contradiction.
+  destruct (t_pc (c_pool c t)) as [|q|q b|q b|q b|q b got|q b got|q b got|q b got| |hm|hm] eqn:Hpc; try contradiction.
   - (* the call point *)
     destruct (t_todo (c_pool c t)) as [|o rest] eqn:Htodo.
     + rewrite (step_idle_nil e c t) by assumption. exact I.
